@@ -460,6 +460,37 @@ func C18(c *core.Ctx) {
 	for _, g := range gateV {
 		e.run(c18Case{class: "gate/verification", desc: g.name, f: base, log: logB, mutMsg: g.msg, mutSc: g.sc, collateral: g.col, assertState: true, expectState: false})
 	}
+	// revocation on: each endpoint down / answering garbage, alone and together with a broken quote signature
+	for _, frag := range []string{"/tcb?", "qe/identity", "pckcrl", "IntelSGXRootCA.der"} {
+		for _, kind := range []string{"down", "garbage"} {
+			for _, alsoSig := range []bool{false, true} {
+				frag, kind := frag, kind
+				cs := c18Case{class: "gate/verification", desc: fmt.Sprintf("revocation on, endpoint %q %s, signature broken=%v", frag, kind, alsoSig), f: base, log: logB,
+					collateral: true, crl: true, assertState: true, expectState: false,
+					mutSc: func(sc *Scenario) {
+						hit := false
+						for u, x := range sc.Resp {
+							if strings.Contains(u, frag) {
+								hit = true
+								if kind == "down" {
+									sc.Resp[u] = world.Resp{Err: errors.New("down")}
+								} else {
+									x.Body = []byte("zz")
+									sc.Resp[u] = x
+								}
+							}
+						}
+						if !hit {
+							panic("no URL matches " + frag)
+						}
+					}}
+				if alsoSig {
+					cs.mutMsg = gateV[0].msg
+				}
+				e.run(cs)
+			}
+		}
+	}
 
 	// ---- policy gate ----
 	b := e.sample.TdQuoteBody
